@@ -39,6 +39,85 @@ def scenario_events(tag, files, res, wd):
     return ev
 
 
+def family_segments(ctx, wd):
+    """C14 on generated schemas: Read P(n); Append P(n+1) [; Append P(n+2)] for the populations of
+    spec/Population.tla (all files use the same ids 10, 20, ...: every id collides), judged by the same trace
+    specification through the generic projection (keyword, parameter text with references blanked, references)"""
+    from checks import c01
+    from vf import express, p21
+    cases = []
+    g = tlc.run_tlc("Population_Gen", None, workers=4, timeout=900, on_case=cases.append,
+                    cfg_text="CONSTANTS Deep = %s Rounds = %d\nINIT Init\nNEXT Next\nINVARIANT Emit\n" % ("FALSE" if ctx.quick else "TRUE", 3 if ctx.quick else 5))
+    if g.rc != 0 or g.errors:
+        raise InfraError("Population_Gen failed: %s" % g.tail[-10:])
+    by = {}
+    for c in cases:
+        if c["conforming"]:
+            by.setdefault(json.dumps(c["choice"], sort_keys=True), {})[c["n"]] = c
+    keys = sorted(by)
+    if ctx.quick:
+        strata = {}
+        for k in keys:
+            ch = json.loads(k)
+            strata.setdefault((ch["inh"], ch["ts"]["k"], ch["ts"].get("of", "")), []).append(k)
+        keys = sorted(v[len(v) // 2] for v in strata.values())
+
+    def one(k):
+        cs = by[k]
+        txt = express.render(cs[0]["schema"])
+        tag = "c02_" + sha(txt)[:10]
+        try:
+            lib = build.schema_lib(tag, txt)
+            drv = build.link_driver("session_" + tag, [c01.DRV], schema=lib)
+        except build.BuildFailure as ex:
+            return k, None, str(ex)[-400:]
+        bwd = mkdir(os.path.join(wd, "fam_" + sha(k)[:8]))
+        scripts, metas = [], []
+        rounds = sorted(cs)
+        for n in rounds[:-1]:
+            seq = [n, n + 1] + ([n + 2] if (n + 2) in cs and not ctx.quick else [])
+            t2 = "F%s_%d" % (sha(k)[:8], n)
+            lines = ["new 0"]
+            texts = []
+            for j, m in enumerate(seq):
+                variant = c01.VARIANTS[(n + j) % len(c01.VARIANTS)]
+                text = c01.render_pop(cs[0]["schema"]["name"], cs[m]["pop"], variant, n * 5 + j, None)
+                f = os.path.join(bwd, "%s_i%d.p21" % (t2, j))
+                open(f, "w", newline="").write(text)
+                texts.append(text)
+                lines += ["%s %s" % ("read" if j == 0 else "append", f), "states", "writenv %s" % os.path.join(bwd, "%s-o%d.p21" % (t2, j))]
+            scripts.append((t2, lines))
+            metas.append((t2, texts))
+        res = sess.run_scripts(drv, scripts, bwd)
+        segs = []
+        for t2, texts in metas:
+            files = [sess.project_generic(t, None, True) for t in texts]
+            # a file is given in file order; the abstract file of Session is in manager order = file order
+            ev = [json.dumps({"e": "Reset"})]
+            it = iter(res.get(t2, []))
+            nxt = lambda: next(it, {"cmd": "missing"})
+            nxt()
+            for j, F in enumerate(files):
+                call, st, wr = nxt(), nxt(), nxt()
+                if "crash" in (call.get("cmd"), st.get("cmd"), wr.get("cmd")) or st.get("cmd") != "states":
+                    ev.append(json.dumps({"e": "Crash", "rc": call.get("rc") or st.get("rc") or wr.get("rc"), "during": "read" if j == 0 else "append"}))
+                    break
+                pop = sess.project_generic(os.path.join(bwd, "%s-o%d.p21" % (t2, j)), st["list"])
+                ev.append(json.dumps({"e": "Read" if j == 0 else "Append", "file": F, "incr": call["incr"], "sev": call["sev"],
+                                      "esev": call["esev"], "pop": pop}))
+            segs.append((ev, {"schema": k, "round": t2, "files": texts}))
+        shutil.rmtree(bwd, ignore_errors=True)
+        return k, segs, ""
+    out = []
+    with cf.ThreadPoolExecutor(max_workers=3) as ex:
+        for k, segs, err in ex.map(one, keys):
+            if segs is None:
+                ctx.violation("family-build|" + k, "generated library of a family schema does not build: " + err[-200:], {"choice": k})
+                continue
+            out.extend(segs)
+    return out, len(keys)
+
+
 def run(ctx):
     q = ctx.quick
     cov = {}
@@ -94,11 +173,21 @@ def run(ctx):
     with cf.ThreadPoolExecutor(max_workers=12) as ex:
         for r in ex.map(lambda a: batch(*a), [(i, items[i:i + B]) for i in range(0, len(items), B)]):
             segs.extend(r)
+    fam, nfam = family_segments(ctx, wd)
+    nmodel = len(segs)
+    segs = segs + [e for e, m in fam]
     acc, rej = tlc.validate_segments("Session_Trace", "Session_Trace.cfg", segs, os.path.join(ctx.work, "v"),
                                      parallel=8, max_events=6000)
     for r in rej:
         seg = segs[r["segment"]]
         ev = json.loads(r["line"]) if r["line"] else {}
+        if r["segment"] >= nmodel:
+            m = fam[r["segment"] - nmodel][1]
+            ctx.violation("family-trace|%s|%s" % (ev.get("e"), m["schema"]),
+                          "generated schema %s: recorded %s is not a step of Session (increment %s, severity %s): session %s" % (
+                              m["schema"][:80], ev.get("e"), ev.get("incr"), ev.get("sev"), json.dumps(ev.get("pop"))[:400]),
+                          {"schema": m["schema"], "files": m["files"], "event": ev})
+            continue
         files = scen[r["segment"]]
         what = "unexplained"
         key = "trace|%s|%s" % (ev.get("e"), sha(json.dumps(files))[:12])
@@ -112,6 +201,7 @@ def run(ctx):
         "traces_validated_against_impl": acc,
         "exhaustive": True,
         "scenarios": len(scen), "events": sum(len(s) for s in segs), "rejected": len(rej),
+        "generated_schema_family": {"schemas": nfam, "scenarios": len(fam)},
         "samples": [{"scenario": scen[0], "events": [json.loads(x) for x in segs[0]]}] if scen else [],
         "evaluations": len(scen), "distinct_nontrivial": len(scen),
         "rule": "first file x every file shape (5 id sets x referrer type x reference pattern x target link x "
